@@ -22,6 +22,7 @@ HARNESSES = [
      "quick_cases": ["b4:nodata", "b5:nodata", "b6:nodata", "b7:data", "b8:data", "b10:nodata", "b11:data", "case:data", "b0:nodata"],
      "timeout": {"quick": 120, "thorough": 400}},
     {"fn": "h_src", "cases": ["w6", "w7", "w8", "ref"], "quick_cases": ["w6", "ref"], "timeout": {"quick": 120, "thorough": 600}},
+    {"fn": "h_src_seq", "cases": ["BC-BD", "BD-BC"], "timeout": {"quick": 120, "thorough": 400}},
     {"fn": "h_siglist", "cases": ["count"], "timeout": {"quick": 120, "thorough": 400}},
     {"fn": "h_regdump", "cases": ["size", "inst", "id", "twochips", "sameid"], "quick_cases": ["size", "inst", "sameid"], "timeout": {"quick": 120, "thorough": 400}},
     {"fn": "h_scratch", "cases": ["regs:v", "regs:k0", "regs:k8", "regs:k15", "sig", "ffdc", "other"], "quick_cases": ["regs:v", "regs:k8", "sig", "ffdc", "other"],
@@ -277,6 +278,19 @@ def h_scratch() -> bool:
     """
     post: _
     """
+    try:
+        return _scratch()
+    except HarnessSkip:
+        raise
+    except Exception as e:          # the decoders must not raise on these well-formed sections
+        return verdict(False, obs={"exception": repr(e)})
+
+
+class HarnessSkip(Exception):
+    pass
+
+
+def _scratch():
     fj = FakeJson()
     if CASE.startswith("regs"):
         # (the addresses are dictionary keys: a symbolic key is hashed, i.e. enumerated - one key byte per run)
@@ -321,3 +335,34 @@ def h_scratch() -> bool:
     with patched(ud, json=fj):
         tok = ud.parseUDToJson(sub, 1, memoryview(b"\x01\x02"))
     return verdict(tok == "null", obs={"out": str(tok)})
+
+
+def h_src_seq() -> bool:
+    """
+    post: _
+    """
+    # the hw-diags SRC parser is reached through the BMC SRC dispatcher (srcparsers.osrc) for component E5 - also when
+    # a hostboot-type (BC..) SRC of the same component was decoded before or after it in the same process
+    from srcparsers.osrc import osrc
+    w = sym_bytes("w", 1)
+    b = list(BASE)
+    b[6] = w[0]
+    words = [mkstr(hexstr(b[4 * i:4 * i + 4], True)) for i in range(3)]
+    fj = FakeJson()
+    order = CASE.split("-")
+    outs = {}
+    try:
+        with env(False), patched(srcp, json=fj), patched(osrc, json=fj):
+            for kind in order:
+                ref = ("BC8AE540" if kind == "BC" else "BD8DE510").ljust(32)
+                outs[kind] = osrc.parseSRCToJson(ref, "00000002", "00000003", "00000004", "00000005", words[0], words[1], words[2], "00000009")
+    except Exception as e:
+        return verdict(False, obs={"exception": repr(e)})
+    chip, sig, at = expect_signature(b, False)
+    bd = outs["BD"]
+    conds = [hasattr(bd, "obj"), outs["BC"] == "null"]         # no hostboot SRC parser is installed in this tree
+    if hasattr(bd, "obj"):
+        sd = bd.obj.get("Signature Description", {})
+        conds += [bd.obj.get("Primary Attention") == "system checkstop", str_is(sd.get("Chip Desc", ""), chip),
+                  str_is(sd.get("Signature", ""), sig), str_is(sd.get("Attn Type", ""), at)]
+    return verdict(sym_all(conds), obs={"BD": getattr(bd, "obj", str(bd)), "BC": str(outs["BC"])})
